@@ -67,8 +67,12 @@ def find_region(case, res):
 
 
 def run(ctx):
+    import time
+    timing = {}
+    t = time.time()
     generate(ctx)
     info = ctx.coq_props()
+    timing["coq_props_s"] = round(time.time() - t, 1)
     r = vlib.rng(ctx.seed, "C19")
     thorough = not ctx.quick
     cases = L.programs(ctx.tier, r)
@@ -80,7 +84,9 @@ def run(ctx):
         c["src"] = c["src"].replace("FN", c["id"])
         cases.append(c)
     source = L.HEADER + "\n".join(c["src"] for c in cases)
+    t = time.time()
     raw = json.loads(ctx.impl("impl_seq.py", {"source": source, "funcs": [c["fn"] for c in cases]}, timeout=2400))
+    timing["compile_programs_s"] = round(time.time() - t, 1)
     if "fatal" in raw:
         raise RuntimeError("program module failed to load: " + raw["fatal"])
     results = raw["results"]
@@ -181,6 +187,7 @@ def run(ctx):
             sem_items.append((c, inputs))
     sem_fail = []
     unevaluable = set()
+    t = time.time()
     if model_ok and sem_items:
         files = {}
         chunk = 250
@@ -219,6 +226,8 @@ def run(ctx):
                     sem_fail.append((c, inputs, "model", model_r, want, impl_r))
                 elif impl_r != model_r:
                     sem_fail.append((c, inputs, "emitted-vs-model", impl_r, want, model_r))
+
+    timing["semantic_eval_s"] = round(time.time() - t, 1)
 
     def show(v):
         return json.loads(json.dumps(v))
@@ -279,7 +288,7 @@ def run(ctx):
         evaluations=stats["semantic_cases"] + stats["programs"], distinct_nontrivial=stats["semantic_nontrivial"],
         rule="evaluations = abstract-machine runs of emitted sequences (each also run on the model sequence and the Python list spec) + compiled programs; non-trivial = the specification expects a result (valid index, cell present), the rest must panic",
         traces_validated_against_impl=stats["syntactic_equal"], stats=stats, samples=samples,
-        unevaluable_sequences=sorted(unevaluable), notes=ctx.notes)
+        unevaluable_sequences=sorted(unevaluable), timing=timing, notes=ctx.notes)
     return ctx.finish(LEVEL, cov, ["array length n <= 2^63 and usize is 64 bit",
                                    "HUGR op semantics as written in coq/C19/Array.v (trusted spec)",
                                    "for-loop / comprehension drivers call __next__ until Nothing (C03/C18 territory)"])
